@@ -60,10 +60,15 @@ def main():
         cases = [(pk, pl, wh, "module") for pk, pl, wh in itertools.product(("keep", "data_function"), ("inline", "top", "helper", "kept"), ("before", "after", "after_populated", "earlier", "never"))]
         # how the reading function gets hold of dds: module-level import (above) or an import inside the function body
         cases += [("keep", pl, wh, st) for pl, wh, st in itertools.product(("top", "kept"), ("before", "earlier", "after"), ("local_import", "local_import_as", "local_from_import"))]
+        # the producing function kept under two paths in the same evaluation (the loaded path is the second keep site)
+        cases += [("keep_twice", pl, wh, "module") for pl, wh in itertools.product(("top", "kept"), ("before", "after", "after_populated", "earlier"))]
         for prod_kind, placement, when, style in cases:
             n += 1
             read_import, load_name = STYLES[style]
-            if prod_kind == "keep":
+            if prod_kind == "keep_twice":
+                producer_def = ""
+                produce_call = '(dds.keep("/c09/p0", prod_body), dds.keep("/c09/p", prod_body))[1]'
+            elif prod_kind == "keep":
                 producer_def = ""
                 produce_call = 'dds.keep("/c09/p", prod_body)'
             else:
@@ -127,7 +132,7 @@ def main():
     finally:
         sys.path.remove(d)
         shutil.rmtree(d, ignore_errors=True)
-    print(json.dumps({"scope": "2 producer kinds x 4 load placements x 5 producer positions x history (V=1 fresh, V=2 populated) + 18 cases where the reader imports dds inside its body (import / import as / from import)", "evaluations": evals, "distinct_nontrivial": n, "exhaustive": True,
+    print(json.dumps({"scope": "2 producer kinds x 4 load placements x 5 producer positions x history (V=1 fresh, V=2 populated) + 8 cases where the producing function is kept under two paths + 18 cases where the reader imports dds inside its body (import / import as / from import)", "evaluations": evals, "distinct_nontrivial": n, "exhaustive": True,
                       "rule": "one case per (producer kind, placement, position); each evaluated twice with a changed dependency", "samples": samples, "violations": violations,
                       "known_hits": ["bounded:%s (%d cases, e.g. %s)" % (c, len(w), w[0][:170]) for c, w in sorted(known.items())]}))
 
